@@ -13,6 +13,13 @@ let () = register "az" (fun args ->
     show_outcome show_barcode (az_encode (zlist_of_hex data) (zi pct) (zi layers))
   | _ -> "BAD")
 
+(* the colour scheme is stored, not interpreted: same modules for every scheme *)
+let () = register "azcol" (fun args ->
+  match args with
+  | [_; pct; layers; data] ->
+    show_outcome show_barcode (az_encode (zlist_of_hex data) (zi pct) (zi layers))
+  | _ -> "BAD")
+
 let () = register "azhl" (fun args ->
   match args with
   | [data] -> show_outcome bits_str (az_highlevel (zlist_of_hex data))
